@@ -30,6 +30,9 @@ impl HistProp {
         if counting {
             let nt = (self.nontrivial)(&r.summary, case);
             (self.labeler)(&r.summary, case, st);
+            if case.cfg.contains_emb() {
+                st.label("stack_with_embedded_lower_layer");
+            }
             if nt {
                 let h = crate::util::fnv(serde_json::to_string(&case.to_json()).unwrap().as_bytes());
                 st.nontrivial.insert(h);
